@@ -10,6 +10,7 @@ import (
 // any alignment) in a haystack in one pass.
 type Scanner struct {
 	first [65536]bool
+	pre4  []bool // second-level filter on the first four bytes (2^22 slots)
 	byPre map[uint64][]scanPat
 	n     int
 	seen  map[string]bool
@@ -22,7 +23,11 @@ type scanPat struct {
 }
 
 // NewScanner returns an empty scanner.
-func NewScanner() *Scanner { return &Scanner{byPre: map[uint64][]scanPat{}, seen: map[string]bool{}} }
+func NewScanner() *Scanner {
+	return &Scanner{byPre: map[uint64][]scanPat{}, seen: map[string]bool{}, pre4: make([]bool, 1<<22)}
+}
+
+func slot4(b []byte) uint32 { return (binary.LittleEndian.Uint32(b) * 2654435761) >> 10 }
 
 // Add registers a secret (at least 12 bytes) under a label; duplicates are ignored.
 func (s *Scanner) Add(secret []byte, label string) {
@@ -44,6 +49,7 @@ func (s *Scanner) addPat(p []byte, label, enc string) {
 		return
 	}
 	s.first[binary.LittleEndian.Uint16(p)] = true
+	s.pre4[slot4(p)] = true
 	k := binary.LittleEndian.Uint64(p)
 	s.byPre[k] = append(s.byPre[k], scanPat{p, label, enc})
 }
@@ -54,7 +60,7 @@ func (s *Scanner) Len() int { return s.n }
 // Find returns (label, encoding) of the first registered secret found in hay, or "", "".
 func (s *Scanner) Find(hay []byte) (string, string) {
 	for i := 0; i+8 <= len(hay); i++ {
-		if !s.first[binary.LittleEndian.Uint16(hay[i:])] {
+		if !s.first[binary.LittleEndian.Uint16(hay[i:])] || !s.pre4[slot4(hay[i:])] {
 			continue
 		}
 		ps, ok := s.byPre[binary.LittleEndian.Uint64(hay[i:])]
